@@ -108,6 +108,8 @@ def one_case(seed):
         unit = rng.choice(["<br/>", "{{a}}", "[[b]]", "{{a}}b", "&amp;", "<!--c-->"])
         rep = unit * rng.randint(3, 5)
         text = rng.choice([rep + text, text + rep, "{{t|1=p" + rep + "q}}" + text, text + "x" + rep + "y"])
+    if rng.random() < 0.15:
+        text += rng.choice(["{{{title|}}} x", "{{t|k=}}", "{{t||a}}", "<b></b>", "{{box|head={{{title|}}}|body=b}}", "== ==\n"])      # empty child Wikicodes
     page = M.parse(text)
     nodes = page.filter()
     if not nodes:
@@ -158,6 +160,26 @@ def one_case(seed):
                 return text, ops_done, "%s(target, <live view of the page>): text is %r, expected %r (the value as it was when the call was made)" % (
                     op, str(page)[:160], exp[:160]), nested
             break           # the same node objects are now at two places (the caller asked for that): the history ends here
+        if rng.random() < 0.08:
+            # ---- a nested Wikicode as the target (found through the node's attributes, not through __children__): a value of a
+            # parameter, a default of an argument - possibly EMPTY -, a link title ...; an edit addressed to it must find it
+            held = [(pn, attr, w) for pn, attr, w, rendered in c09.held_wikicodes(page) if rendered and span_of(page, pn) is not None]
+            if held:
+                pn, attr, w = rng.choice(held)
+                before_w = str(w)
+                op = rng.choice(["insert_after", "insert_before", "replace"])
+                ops_done.append((op, "nested Wikicode", "%s.%s=%r" % (type(pn).__name__, attr, before_w[:20])))
+                try:
+                    getattr(page, op)(w, "ZZ%d" % step)
+                except Exception as e:  # noqa: BLE001
+                    return text, ops_done, "%s with the Wikicode %s.%s (%r) of a node of the tree as the target raised %r" % (
+                        op, type(pn).__name__, attr, before_w[:40], e), nested
+                want = {"insert_after": before_w + "ZZ%d" % step, "insert_before": "ZZ%d" % step + before_w, "replace": "ZZ%d" % step}[op]
+                if str(w) != want:
+                    return text, ops_done, "%s(<Wikicode %r>, 'ZZ%d'): the Wikicode renders %r, expected %r" % (op, before_w[:40], step, str(w)[:60], want[:60]), nested
+                if want not in str(page):
+                    return text, ops_done, "%s on a nested Wikicode is not visible in the page" % op, nested
+                continue
         if secs and kind < 0.2:
             # ---- a section view as the target
             j = rng.randrange(len(secs))
@@ -438,7 +460,7 @@ def weak_cases(seed, n):
         new = [rng.randrange(7, 10) for _ in range(rng.randrange(0, 3))]
         if rng.random() < 0.15:
             new = list(pat) + new          # a value that contains the target again
-        variant = rng.choice([0, 0, 0, 1, 2, 3])      # plain / target given as bytes / the value is the edited Wikicode itself / value as bytes
+        variant = rng.choice([0, 0, 0, 1, 2, 3, 4])      # plain / target given as bytes / the value is the edited Wikicode itself / value as bytes / target as a one-shot iterator
         if variant == 2:
             new = list(l)
         out.append((rng.randrange(4), pat, new, l, rng.random() < 0.3, rng.random() < 0.5, variant))
@@ -453,7 +475,7 @@ def _weak_work(cases):
         tx = lambda ids: "".join("{{%d}}" % i for i in ids)
         page = mwparserfromhell.parse("{{t|" + tx(l) + "}}" if nested else tx(l))
         holder = page.nodes[0].params[0].value if nested else page
-        target = tx(pat).encode() if variant == 1 else tx(pat)
+        target = tx(pat).encode() if variant == 1 else (iter([tx(pat)]) if variant == 4 else tx(pat))
         value = holder if variant == 2 else (tx(new).encode() if variant == 3 else tx(new))
         args = (target,) if kind == 0 else (target, value)
         try:
@@ -505,7 +527,7 @@ def weak_tie(c, tier, seed):
             if bad:
                 c.fail("%s(%r%s, recursive=%r)%s on %r %s: got %s, the model (scan from the end, disjoint exact matches) gives %s"
                        % (WEAK_KINDS[kind], "".join("{{%d}}" % i for i in pat), "" if kind == 0 else ", %r" % "".join("{{%d}}" % i for i in new),
-                          recursive, ["", " with the target as bytes", " with the edited Wikicode itself as the value", " with the value as bytes"][variant],
+                          recursive, ["", " with the target as bytes", " with the edited Wikicode itself as the value", " with the value as bytes", " with the target as a one-shot iterator"][variant],
                           ("{{t|%s}}" if nested else "%s") % "".join("{{%d}}" % i for i in l), bad, r, m), {"weak_case": list(case)})
             elif dis <= 3:
                 c.broken.append({"file": "correspondence string targets", "line": 0, "statement": "weak_edit (model tie)",
@@ -536,6 +558,33 @@ def _only_occurrences(old, new, pat, seg):
     return False
 
 
+def _target_kinds_probe(_items):
+    """the same string target given as str, bytes, a one-element list and a one-shot iterator, on the exact and on the inexact path
+    (a piece of a Text node): the page text afterwards is the same in all four cases"""
+    import mwparserfromhell as M
+    fails = []
+    pages = ["a foo b {{t}} foo", "x{{a}}y{{a}}z", "lead\n== A ==\nfoo bar\n"]
+    targets = ["foo", "oo b", "{{a}}", "{{t}}", "== A ==", "o"]
+    for page in pages:
+        for tgt in targets:
+            if tgt not in page:
+                continue
+            for op, args in (("remove", ()), ("replace", ("Z",)), ("insert_before", ("{{n}}",)), ("insert_after", ("Q",))):
+                want = None
+                for kind, make in (("str", lambda t: t), ("bytes", lambda t: t.encode()), ("list", lambda t: [t]), ("iterator", lambda t: iter([t]))):
+                    code = M.parse(page)
+                    try:
+                        getattr(code, op)(make(tgt), *args)
+                        got = str(code)
+                    except Exception as e:      # noqa: BLE001
+                        got = "raised %r" % (e,)
+                    if want is None:
+                        want = got
+                    elif got != want:
+                        fails.append("%s(%r given as %s%s) on %r gives %r, given as str %r" % (op, tgt, kind, "".join(", %r" % a for a in args), page, got, want))
+    return [fails]
+
+
 def run(tier, seed):
     c = vlib.Check("C08", tier, seed, "proof")
     vlib.pure_python_parser()
@@ -558,6 +607,12 @@ def run(tier, seed):
         if fail:
             c.fail(fail, {"seed": s, "text": text, "ops": repr(ops)})
     weak_tie(c, tier, seed)
+    pr = vlib.robust_map(_target_kinds_probe, [0], chunk=1, timeout=120)[0]
+    if isinstance(pr, tuple) and pr and pr[0] in ("CRASH", "TIMEOUT", "PYEXC"):
+        c.fail("string-target kinds probe %s: %s" % (pr[0], str(pr[1])[:200]), {"probe": "target-kinds"})
+    else:
+        for msg in pr[:10]:
+            c.fail(msg, {"probe": "target-kinds", "what": msg})
     c.cov["distinct_nontrivial"] = len(nontrivial)
     c.cov["rule"] = ("grammar documents (depth 1-4; 30% with a repeated half so that several nodes render the same text) x sequences of 1-4 edits: "
                      "node targets at any depth (located by identity through a marker rendering), nodes of another tree, index targets on the page "
@@ -572,6 +627,11 @@ def run(tier, seed):
 
 
 def replay(data):
+    if data["data"].get("probe") == "target-kinds":
+        vlib.pure_python_parser()
+        f = _target_kinds_probe([0])[0]
+        print("\n".join(f[:10]))
+        return 1 if f else 0
     if "weak_case" in data["data"]:
         vlib.pure_python_parser()
         case = tuple(data["data"]["weak_case"])
